@@ -279,12 +279,39 @@ def random_call(r, root, nodes):
 CLAIM_KINDS = ('claim', 'wrap', 'auto')
 
 
-def run_doc(ctx, text, auto, nrandom, sweep_frac, *, calls=None):
-    """One document.  With `calls` given: replay exactly those.  Returns (signature, description, calls so far) or None."""
+PRE_EDIT_KINDS = ('rep-append', 'rep-insert', 'rep-extend', 'rep-pop', 'rep-delitem', 'rep-setitem', 'rep-setslice', 'opt-set', 'req-set',
+                  'tok-value', 'numop', 'value-set', 'meta-setkey', 'cost-set')
+
+
+def run_doc(ctx, text, auto, nrandom, sweep_frac, *, calls=None, pre=None, n_pre=0, pre_out=None):
+    """One document.  With `calls` given: replay exactly those.  Returns (signature, description, calls so far) or None.
+    `pre` / `n_pre`: edits applied right after parsing, BEFORE anything is read: the non-edit calls are then judged on a
+    document in a state only edits reach, with no view or cached property created yet."""
     try:
         root = edits.P().parse(text, models.File, auto_claim_comments=auto)
     except Exception:
         return 'rejected'
+    if pre is None and n_pre and ctx is not None:
+        pre = []
+        for _ in range(n_pre):
+            try:
+                op = edits.gen_op(ctx.rng, root, kinds=PRE_EDIT_KINDS)
+                if op is None:
+                    break
+                edits.apply_op(root, op)
+                pre.append(op)
+            except edits.DonorError:
+                continue
+            except Exception:
+                break
+        if pre_out is not None:
+            pre_out.extend(pre)
+    elif pre:
+        for op in pre:
+            try:
+                edits.apply_op(root, op)
+            except Exception:
+                pass
     foreign_file = edits.P().parse('; foreign\n', models.File, auto_claim_comments=False)
     foreign = [t for t in foreign_file.token_store if isinstance(t, models.BlockComment)][0]
     snap = Snap(root)
@@ -351,7 +378,8 @@ def _run(ctx, ndocs, nrandom, sweep_frac, trace=True):
     with tr:
         for text in _documents(ctx, ndocs):
             auto = ctx.rng.random() < 0.5
-            res = run_doc(ctx, text, auto, nrandom, sweep_frac)
+            pre = []
+            res = run_doc(ctx, text, auto, nrandom, sweep_frac, n_pre=ctx.rng.choice([0, 0, 1, 2, 4]), pre_out=pre)
             if res == 'rejected':
                 ctx.count('doc:rejected')
                 continue
@@ -361,15 +389,42 @@ def _run(ctx, ndocs, nrandom, sweep_frac, trace=True):
                 last = history[-1]
                 slim = _slim_history(history)
                 # confirm the slimmed history still fails; otherwise keep everything
-                again = run_doc(None, text, auto, 0, 0, calls=slim)
+                again = run_doc(None, text, auto, 0, 0, calls=slim, pre=pre)
                 if not again or again == 'rejected' or again[0] != sig:
                     slim = history
-                ctx.oracle_fail(f'C04:{sig}:{last[0]}:{last[2] or ""}', f'{what} after {last}', {'text': text, 'auto': auto, 'calls': slim})
+                ctx.oracle_fail(f'C04:{sig}:{last[0]}:{last[2] or ""}', f'{what} after {last}', {'text': text, 'auto': auto, 'calls': slim, 'pre': pre})
     if trace:
         tr.diff(ctx, 'comments-lockstep')
 
 
+# states that only edits reach (the parser never produces them), each followed by the whole battery of non-edit calls
+PROBE_STATES = [
+    ('2000-01-01 custom "x" 1\n', [{'k': 'call', 'kind': 'rep-append', 'm': 'append', 'path': ['raw_directives_with_comments', 0], 'attr': 'raw_values',
+                                    'args': [{'t': 'parse', 'cls': 'NumberExpr', 'text': '-2'}], 'parent': ['raw_directives_with_comments', 0]}]),
+    ('2000-01-01 custom "x" 1 2 USD\n', [{'k': 'setattr', 'kind': 'value-set', 'path': ['raw_directives_with_comments', 0, 'raw_values', 1], 'attr': 'number',
+                                          'val': {'t': 'dec', 'v': '-2.00'}, 'parent': ['raw_directives_with_comments', 0, 'raw_values', 1]}]),
+    ('2000-01-01 custom "x" 1\n', [{'k': 'call', 'kind': 'rep-append', 'm': 'append', 'path': ['raw_directives_with_comments', 0], 'attr': 'raw_values',
+                                    'args': [{'t': 'parse', 'cls': 'Amount', 'text': '+3 USD'}], 'parent': ['raw_directives_with_comments', 0]}]),
+    ('2000-01-01 * "p" "n"\n  Assets:A  1 USD\n', [{'k': 'setattr', 'kind': 'opt-set', 'path': ['raw_directives_with_comments', 0], 'attr': 'raw_string2',
+                                                      'val': {'t': 'none'}, 'parent': ['raw_directives_with_comments', 0]}]),
+    ('2000-01-01 *\n  Assets:A  1 USD {2 EUR}\n', [{'k': 'setattr', 'kind': 'value-set', 'path': ['raw_directives_with_comments', 0, 'raw_postings_with_comments', 0, 'raw_cost'],
+                                                     'attr': 'number_total', 'val': {'t': 'dec', 'v': '5'}, 'parent': ['raw_directives_with_comments', 0, 'raw_postings_with_comments', 0, 'raw_cost']}]),
+]
+
+
+def _probe_states(ctx):
+    for text, ops in PROBE_STATES:
+        for auto in (True, False):
+            res = run_doc(ctx, text, auto, 10, 1.0, pre=ops)
+            ctx.count('probe-state')
+            if res not in (None, 'rejected'):
+                sig, what, history = res
+                last = history[-1]
+                ctx.oracle_fail(f'C04:{sig}:{last[0]}:{last[2] or ""}', f'{what} after {last} [edited state]', {'text': text, 'auto': auto, 'calls': history[-30:], 'pre': ops})
+
+
 def run(ctx):
+    _probe_states(ctx)
     import claimprobes
     claimprobes.run_handover(ctx, ['nonedit'])
     claimprobes.run(ctx, oracles=('nonedit',))
@@ -384,5 +439,5 @@ def replay(ctx, data):
     rep = data.get('replay') or data.get('first_diverging_replay') or data
     if 'calls' not in rep:
         return False
-    res = run_doc(None, rep['text'], rep['auto'], 0, 0, calls=rep['calls'])
+    res = run_doc(None, rep['text'], rep['auto'], 0, 0, calls=rep['calls'], pre=rep.get('pre'))
     return res is None
